@@ -917,6 +917,7 @@ func enumCases() []corr.Case {
 	setups := map[string][]string{
 		"absent":        nil,
 		"stored":        {"utr 1 5 -"},              // in the store, not cached
+		"nil+cached":    {"add 1 0 -"},              // in the store and cached with the nil value
 		"stored+cached": {"add 1 5 -"},              // in the store and cached
 		"cached-other":  {"add 2 7 -", "add 3 8 -"}, // other keys cached (LRU pressure), key 1 absent
 	}
